@@ -53,7 +53,7 @@ PROPS = {
                 histories_quick=400, histories_thorough=8000),
     "C14": dict(ops=["dejitter", "morph"], kinds=["I", "P"],
                 quick=dict(N=4, K=2), thorough=dict(N=5, K=2),
-                plans_quick=[("dec", "uni")],
+                plans_quick=[("dy", "ascii"), ("dec", "uni")],
                 plans_thorough=[("dy", "ascii"), ("dec", "uni"), ("c7", "quote")],
                 rand_quick=8000, rand_thorough=150000, extra_clauses=["times_off_grid"]),
     "C05": dict(ops=ALL_UNARY + ALL_BINARY + ["construct"], kinds=["I", "P"],
